@@ -124,6 +124,8 @@ func init() {
 		"promptness = the loop returns within the step budget with no read that would wait for ever; wall-clock behaviour is outside the claim; faults in the batching pool belong to C13",
 	}, orcaAssumptions...),
 		Quick: []Job{{Pkg: "./zz_verif/orcah", Func: "ZZFault", Only: []string{"c10-"}, Reach: []string{"loop-returned", "fault-delivered", "read-back"}, Bounds: fb + "orchestrators L1Only, L1L2, L1L2Batch"},
+			{Pkg: "./zz_verif/orcah", Func: "ZZFault", Name: "fault-then-read-on-same-connection", Params: map[string]int64{"followup": 1, "nk": 2, "norca": 2, "faultpositions": 2}, Only: []string{"c10-"}, Reach: []string{"loop-returned", "fault-delivered", "followup-checked"},
+				Bounds: "as ZZFault with 2 keys; orchestrators L1Only and L1L2; first request a 2-key quiet-get batch (closed by get or no-op) or a set, with the fault on backend request 0 or 1, then a get of either key on the same client connection: it is unanswered, answered not-found/error, or answered with that key's own value -- never another key's"},
 			{Pkg: "./handlers/memcached/chunked", Func: "ZZChunkedFault", Setup: "ZZSetup", Only: []string{"c10-"}, Reach: []string{"call-returned", "fault-delivered"},
 				Bounds: "real chunked handler over the memcached model holding a value of 1-3 chunks; get / get-and-touch / delete / touch / set (2 chunks) with one backend request of the exchange (index 0..n+2) answered with one of 10 error statuses or the connection closed before / after / inside (byte 1..30) the reply: the call returns, never reads a dead connection again and again, never waits for a reply that cannot come; values returned are the stored value or a miss; afterwards the connection is either in sync (next set+get answered correctly) or given up with a non-application error"}},
 		Thorough: []Job{{Pkg: "./zz_verif/orcah", Func: "ZZFault", Name: "ZZFault-locked-2keys", Params: map[string]int64{"norca": 9, "faultpositions": 4}, Only: []string{"c10-"}, Reach: []string{"loop-returned", "fault-delivered", "read-back"}, Bounds: fb + "all 9 orchestrator configurations incl. the locking wrappers, fault index 0..3"}}})
@@ -269,6 +271,7 @@ func init() {
 		Quick: []Job{
 			bjob("ZZBatchedStep", "", nil, []string{"step-done"}, "one command (set add replace append prepend delete touch gat get gete; gets of 1-2 keys incl. duplicates, symbolic quiet flags and opaques) through the pool and over a direct std connection from equal arbitrary backend states (2 keys): same outcome, data, flags, remaining TTL, same backend state"),
 			bjob("ZZBatchedTwoCallers", "", nil, []string{"both-done"}, "two callers at once, their requests in one batch (A: any command on keys 0-1 incl. 2-key gets, B: any command on key 2): each receives what it would receive alone"),
+			bjob("ZZBatchedHold", "", nil, []string{"held"}, "a value obtained by get / gete / gat is compared with the direct connection's only after two further gets have gone over the same pooled connection"),
 		},
 		Thorough: []Job{bjob("ZZBatchedStep", "step-3keys-3getkeys", map[string]int64{"nk": 3, "getkeys": 3}, []string{"step-done"}, "as quick with 3 keys and gets of 1-3 keys")}})
 	reg(Check{ID: "C13", Level: "model_checking", Assumptions: append([]string{
@@ -308,6 +311,7 @@ func init() {
 			w7("ZZBinaryDecode", "binary-k2-d2", map[string]int64{"keylen": 2, "datalen": 2}, two, "24 request kinds x 4 followers x every cut offset; key 2 bytes, data 2 bytes"),
 			w7("ZZTextDecode", "text-k2-d2-3digits", map[string]int64{"keylen": 2, "datalen": 2, "digits": 3}, two, "13 command kinds x 3 followers x every cut offset; key 2 bytes, data 2 bytes, 3-digit numeric fields"),
 			w7("ZZDisambiguate", "", nil, []string{"disambiguated"}, "all 256 first bytes"),
+			func() Job { j := w7("ZZTextLongLine", "text-line-over-4096", nil, two, "a text get of ~680 keys whose command line is just over the 4096-byte read buffer (a few key bytes symbolic), cut nowhere / at byte 4096 / before the last byte, followed by a set"); j.LoopCap = 4000; return j }(),
 		},
 		Thorough: []Job{
 			w7("ZZBinaryDecode", "binary-k250-d5", map[string]int64{"keylen": 250, "datalen": 5}, two, "key 250 bytes, data 5 bytes"),
